@@ -38,9 +38,11 @@ struct Model {
     /// buffer font pages used for logical page 0 / 1
     pages: [usize; 2],
     cells: Vec<Cell>,
+    /// storage-shape perturbation (icyv::shape::perturb), 0 = none; never changes the picture inside the buffer rectangle
+    shape: u8,
 }
 
-fn build(m: &Model) -> Buffer {
+fn build(m: &Model) -> (Buffer, &'static str) {
     let mut buf = Buffer::new((m.w as i32, m.h as i32));
     buf.ice_mode = if m.ice { IceMode::Ice } else { IceMode::Blink };
     let mut used = [false; 2];
@@ -60,7 +62,8 @@ fn build(m: &Model) -> Buffer {
             buf.layers[0].set_char((x as i32, y as i32), AttributedChar::new(c.ch as char, a));
         }
     }
-    buf
+    let shape = icyv::shape::perturb(&mut buf, m.shape);
+    (buf, shape)
 }
 
 // ------------------------------------------------------------------------------------------------------------------
@@ -251,6 +254,7 @@ struct Stats {
     max_run: usize,
     runs64: u64,
     mode512: bool,
+    shape: &'static str,
 }
 
 struct Eval {
@@ -288,7 +292,7 @@ fn cell_fields(b: &Buffer, x: i32, y: i32) -> (u32, u32, u32, u16, usize) {
 /// Err = a failure that makes the rest of the comparison meaningless (save error, header, truncated stream, run across a
 /// row end); Ok = statistics plus every other failure found (at most one `ref.*` and one `load.*` failure per row).
 fn evaluate(m: &Model) -> Result<Eval, Failure> {
-    let buf = build(m);
+    let (buf, shape_name) = build(m);
     let mut opt = SaveOptions::new();
     opt.lossles_output = true;
     opt.save_sauce = m.sauce;
@@ -496,7 +500,7 @@ fn evaluate(m: &Model) -> Result<Eval, Failure> {
     }
 
     // statistics / non-triviality
-    let mut st = Stats { mode512, ..Default::default() };
+    let mut st = Stats { mode512, shape: shape_name, ..Default::default() };
     for y in 0..h {
         let runs = &dec.rows[y];
         let switch = runs.windows(2).any(|p| p[0].ty != p[1].ty);
@@ -571,6 +575,26 @@ fn judge(m: &Model, ev: Eval, tolerate: bool, count: bool) -> Result<(Stats, usi
     Ok((st, tolerated))
 }
 
+/// evaluate + judge; a failure of a case with a perturbed storage shape is re-checked on the plain shape: if the plain
+/// buffer fails with the same key the shape is irrelevant and the key stays as it is, otherwise the key names the shape
+/// (the defect needs that storage shape).
+fn assess(m: &Model, tolerate: bool, count: bool) -> Result<(Stats, usize), Failure> {
+    let r = evaluate(m).and_then(|ev| judge(m, ev, tolerate, count));
+    match r {
+        Err(f) if m.shape % icyv::shape::CODES != 0 => {
+            let plain = Model { w: m.w, h: m.h, ice: m.ice, sauce: m.sauce, pages: m.pages, cells: m.cells.clone(), shape: 0 };
+            match evaluate(&plain).and_then(|ev| judge(&plain, ev, tolerate, false)) {
+                Err(g) if g.key == f.key => Err(f),
+                _ => {
+                    let name = icyv::shape::perturb(&mut Buffer::new((1, 1)), m.shape);
+                    Err(Failure { key: format!("{}|shape={name}", f.key), msg: format!("{} [storage shape {name}; the same picture stored plainly does not fail this way]", f.msg), ..f })
+                }
+            }
+        }
+        r => r,
+    }
+}
+
 // ------------------------------------------------------------------------------------------------------------------
 // part 1/2: exhaustive small rows
 // ------------------------------------------------------------------------------------------------------------------
@@ -589,6 +613,9 @@ struct RowBlock {
     /// input class failing with that finding's key are counted instead of reported (so that they do not mask the block)
     #[serde(default)]
     tol: bool,
+    /// storage shape of the buffer the block is saved from (icyv::shape), 0 = as built
+    #[serde(default)]
+    shape: u8,
 }
 
 const CH18: [u8; 3] = [b' ', b'A', b'B'];
@@ -636,7 +663,10 @@ fn make_block(radix: u8, table: &[(u64, u64)], i: u64, tol: bool) -> RowBlock {
     }
     let (off, rows) = table[wi];
     let first = (i - off) * BLOCK;
-    RowBlock { radix, w: wi as u8 + 1, first, n: (rows - first).min(BLOCK) as u32, tol }
+    // 60 % of the blocks as built, the rest cycling through the seven storage shapes
+    let r = i % 10;
+    let shape = if r < 6 { 0 } else { 1 + (((i / 10) * 4 + (r - 6)) % 7) as u8 };
+    RowBlock { radix, w: wi as u8 + 1, first, n: (rows - first).min(BLOCK) as u32, tol, shape }
 }
 
 fn block_model(b: &RowBlock, first: u64, n: u32) -> Model {
@@ -644,7 +674,7 @@ fn block_model(b: &RowBlock, first: u64, n: u32) -> Model {
     for k in 0..n as u64 {
         cells.extend(decode_row(b.radix, b.w, first + k));
     }
-    Model { w: b.w as usize, h: n as usize, ice: true, sauce: false, pages: [0, 1], cells }
+    Model { w: b.w as usize, h: n as usize, ice: true, sauce: false, pages: [0, 1], cells, shape: b.shape }
 }
 
 fn check_block(b: &RowBlock) -> Verdict {
@@ -656,11 +686,12 @@ fn check_block(b: &RowBlock) -> Verdict {
         return Verdict::discard("block outside the row domain");
     }
     let m = block_model(b, b.first, b.n);
-    let res = evaluate(&m).and_then(|ev| judge(&m, ev, b.tol, true));
+    let res = assess(&m, b.tol, true);
     match res {
         Ok((st, tolerated)) => {
             let nt = st.row_nt.iter().any(|x| *x);
-            Verdict::pass(nt, format!("w{}{}", b.w, if tolerated > 0 { "+known_font_page_rows" } else { "" }))
+            let base = if b.shape % icyv::shape::CODES == 0 { format!("w{}", b.w) } else { format!("shape:{}", st.shape) };
+            Verdict::pass(nt, format!("{base}{}", if tolerated > 0 { "+known_font_page_rows" } else { "" }))
         }
         Err(f) => {
             if b.n == 1 {
@@ -674,8 +705,8 @@ fn check_block(b: &RowBlock) -> Verdict {
             };
             for idx in cand {
                 let m1 = block_model(b, idx, 1);
-                if let Err(f1) = evaluate(&m1).and_then(|ev| judge(&m1, ev, b.tol, false)) {
-                    let single = RowBlock { radix: b.radix, w: b.w, first: idx, n: 1, tol: false };
+                if let Err(f1) = assess(&m1, b.tol, false) {
+                    let single = RowBlock { radix: b.radix, w: b.w, first: idx, n: 1, tol: false, shape: b.shape };
                     let row = decode_row(b.radix, b.w, idx);
                     return Verdict::fail(f1.key, format!("single-row case {} = cells {} : {}", json!(single), json!(row), f1.msg.replace("row 0 ", "")));
                 }
@@ -721,6 +752,9 @@ struct Pic {
     /// see RowBlock::tol
     #[serde(default)]
     tol: bool,
+    /// storage shape (icyv::shape), 0 = as built
+    #[serde(default)]
+    shape: u8,
 }
 
 fn idx(v: u8, len: usize) -> usize {
@@ -788,7 +822,7 @@ fn pic_model(p: &Pic) -> Model {
     for r in &p.rows {
         cells.extend(expand_row(p, r));
     }
-    Model { w: p.w as usize, h: p.rows.len(), ice: p.ice, sauce: p.sauce, pages: [p.pages.0 as usize, p.pages.1 as usize], cells }
+    Model { w: p.w as usize, h: p.rows.len(), ice: p.ice, sauce: p.sauce, pages: [p.pages.0 as usize, p.pages.1 as usize], cells, shape: p.shape }
 }
 
 fn pic_strategy(tol: bool) -> BoxedStrategy<Pic> {
@@ -813,8 +847,9 @@ fn pic_strategy(tol: bool) -> BoxedStrategy<Pic> {
     let chars = prop_oneof![2 => proptest::collection::vec(chb, 1..=3), 1 => Just(Vec::new())];
     let attrs = prop_oneof![2 => proptest::collection::vec(atb, 1..=3), 1 => Just(Vec::new())];
     let pages = proptest::sample::select(vec![(0u8, 1u8), (0, 1), (0, 2), (1, 0), (1, 3), (2, 1)]);
-    (w, any::<bool>(), prop_oneof![3 => Just(false), 1 => Just(true)], 1u8..=2, pages, chars, attrs, 0u8..=2, rows)
-        .prop_map(move |(w, ice, sauce, npages, pages, chars, attrs, fill, rows)| Pic { w, ice, sauce, npages, pages, chars, attrs, fill, rows, tol })
+    let shape = prop_oneof![6 => Just(0u8), 4 => 1u8..icyv::shape::CODES];
+    (w, any::<bool>(), prop_oneof![3 => Just(false), 1 => Just(true)], 1u8..=2, pages, chars, attrs, 0u8..=2, rows, shape)
+        .prop_map(move |(w, ice, sauce, npages, pages, chars, attrs, fill, rows, shape)| Pic { w, ice, sauce, npages, pages, chars, attrs, fill, rows, tol, shape })
         .boxed()
 }
 
@@ -852,6 +887,9 @@ fn minimize_pic(p: &Pic) -> Vec<Pic> {
     if p.sauce {
         out.push(Pic { sauce: false, ..p.clone() });
     }
+    if p.shape != 0 {
+        out.push(Pic { shape: 0, ..p.clone() });
+    }
     if p.fill != 1 {
         out.push(Pic { fill: 1, ..p.clone() });
     }
@@ -863,7 +901,7 @@ fn check_pic(p: &Pic) -> Verdict {
         return Verdict::discard("outside the generated domain");
     }
     let m = pic_model(p);
-    match evaluate(&m).and_then(|ev| judge(&m, ev, p.tol, true)) {
+    match assess(&m, p.tol, true) {
         Ok((st, tolerated)) => {
             let alpha = match (p.chars.is_empty(), p.attrs.is_empty()) {
                 (true, true) => "full",
@@ -873,12 +911,16 @@ fn check_pic(p: &Pic) -> Verdict {
             let nt = st.row_nt.iter().any(|x| *x);
             Verdict::pass(
                 nt,
-                format!(
-                    "{alpha}/{}{}{}",
-                    if st.mode512 { "512" } else { "single" },
-                    if st.max_run == 64 { "/run64" } else { "" },
-                    if tolerated > 0 { "+known_font_page_rows" } else { "" }
-                ),
+                if p.shape % icyv::shape::CODES == 0 {
+                    format!(
+                        "{alpha}/{}{}{}",
+                        if st.mode512 { "512" } else { "single" },
+                        if st.max_run == 64 { "/run64" } else { "" },
+                        if tolerated > 0 { "+known_font_page_rows" } else { "" }
+                    )
+                } else {
+                    format!("shape:{}{}", st.shape, if tolerated > 0 { "+known_font_page_rows" } else { "" })
+                },
             )
         }
         Err(f) => Verdict::fail(f.key, f.msg),
@@ -934,7 +976,8 @@ fn main() {
          (digit = ch + 3*at + 9*pg, column 0 least significant); rows_2x2: every row of width 1..=10 over 2 chars x 2 attrs (radix 4). One case = a block of up to 512 \
          consecutive row indices of one width saved as one buffer (compression is per row); a failing row is re-checked alone in a 1-row buffer. \
          pictures: generated buffers width 1..=200 (forced 63,64,65,127,128,129) x height 1..=30, rows built from pieces (equal cells, same-char, same-attr, both-changing, page-alternating and random stretches, \
-         lengths 1..=130 incl. 62..66 and 126..130) over small alphabets (1..=3 chars/attrs) or the full byte range, 1 or 2 font pages in varying font slots, blink or ice mode, with/without SAUCE. \
+         lengths 1..=130 incl. 62..66 and 126..130) over small alphabets (1..=3 chars/attrs) or the full byte range, 1 or 2 font pages in varying font slots, blink or ice mode, with/without SAUCE; 40 % of the pictures and of the row blocks are saved from a buffer whose storage shape was perturbed by icyv::shape::perturb (extra allocated lines, over-long rows, larger layer, \
+         different terminal size, combined) which leaves the picture inside the buffer rectangle unchanged (class shape:<name>; a failure that needs the shape carries |shape=<name> in its key). \
          Non-trivial: a case containing a row with a run of >= 3 equal cells or at least two runs of different type in its compressed form. Distinct by case hash (a block counts once; the row totals are printed as '[C06] rows:'). \
          Row-level handling of the known font-page finding: {}.",
         if tol {
